@@ -4,7 +4,9 @@ Tie: hand-written Coq model (coq/C13/Model.v) of xdsl/transforms/dead_code_elimi
 effect queries of xdsl/traits.py vs the real code on generated programs.  Every case is materialised
 as real xDSL IR (test dialect ops + harness-defined ops carrying every combination of IsTerminator /
 SymbolOpInterface / static MemoryEffect traits / RecursiveMemoryEffect / ALLOC on own result, on an
-operand, on a nested block argument, or parsed func/arith/cf/scf/memref text), dumped into the model's
+operand, on a nested block argument, UNREGISTERED ops in the middle of blocks (unknown effects) and as
+branch-like last ops with successors, so that blocks are reachable only through them (has_trait answers
+value_if_unregistered there), or parsed func/arith/cf/scf/memref text), dumped into the model's
 program representation by reading traits, operands, successors and regions, and then transformed by
 the real `region_dce` (mode region_dce, with its returned flag), by DeadCodeElimination.apply (mode
 pass), by `region_dce` iterated until it reports no change (mode iter, the proposed repair), or by the
@@ -26,7 +28,7 @@ from __future__ import annotations
 
 import json
 
-from harness.common import Ctx, DiffSpec, coq_bool, coq_list, differential, exc_code, replay_findings
+from harness.common import Ctx, DiffSpec, Untranslatable, coq_bool, coq_list, differential, exc_code, replay_findings
 
 META = {
     "id": "C13",
@@ -84,7 +86,7 @@ def X():
     from types import SimpleNamespace
 
     from xdsl.dialects import test
-    from xdsl.dialects.builtin import ModuleOp, i32
+    from xdsl.dialects.builtin import ModuleOp, UnregisteredOp, i32
     from xdsl.ir import Block, Operation, Region, SSAValue
     from xdsl.irdl import (IRDLOperation, irdl_op_definition, traits_def, var_operand_def, var_region_def,
                            var_result_def, var_successor_def)
@@ -142,15 +144,20 @@ def X():
         "allocarg": mk("allocarg", AllocArg()),
         "allocinner": mk("allocinner", AllocInner()),
         "readallocown": mk("readallocown", MemoryReadEffect(), AllocOwn()),
+        # unregistered ops: has_trait(T) answers value_if_unregistered (default True), so PostOrderIterator
+        # follows the successors of an unregistered last op, while would_be_trivially_dead asks with
+        # value_if_unregistered=False and keeps the op because its effects are unknown
+        "unreg": UnregisteredOp.with_name("c13u.op"),
+        "unregbr": UnregisteredOp.with_name("c13u.br"),
     }
     _X = SimpleNamespace(**locals())
     return _X
 
 
 NONTERM_KINDS = ["pure", "unk", "read", "write", "sym", "sympure", "rec", "recread", "alloc", "free", "rw",
-                 "allocown", "allocarg", "allocinner", "readallocown"]
-NONTERM_W = [14, 3, 4, 3, 1, 1, 6, 2, 1, 1, 1, 3, 1, 2, 1]
-TERM_KINDS = ["term", "pureterm", "recterm"]
+                 "allocown", "allocarg", "allocinner", "readallocown", "unreg"]
+NONTERM_W = [14, 3, 4, 3, 1, 1, 6, 2, 1, 1, 1, 3, 1, 2, 1, 2]
+TERM_KINDS = ["term", "pureterm", "recterm", "unregbr"]
 NO_SUCC = {"unk", "sym", "sympure"}       # these classes take no successors
 
 
@@ -267,12 +274,20 @@ def dump_region(r, num):
     def d_op(o):
         eff, rec = static_effects(o, num)
         e = "None" if eff is None else "(Some " + coq_list(eff) + ")"
+        # o_term is what PostOrderIterator asks (has_trait default: an unregistered op counts as a
+        # terminator).  would_be_trivially_dead asks with value_if_unregistered=False; the model's single
+        # flag is faithful for both only because an unregistered op has no MemoryEffect trait (unknown
+        # effects keep it alive either way) -- fail closed if that ever stops being true.
+        term = o.has_trait(x.IsTerminator)
+        if term != o.has_trait(x.IsTerminator, value_if_unregistered=False) and (eff is not None or rec):
+            raise Untranslatable(f"unregistered op {o.name} with known effects: the model's o_term flag cannot "
+                                 "serve both PostOrderIterator and would_be_trivially_dead")
         return ("(ROp " + " ".join([
             str(num.op[id(o)]), zs(num.val[id(v)] for v in o.results),
             zs(num.val[id(v)] for v in o.operands), zs(num.blk[id(s)] for s in o.successors),
             coq_list(d_region(rr) for rr in o.regions),
-            coq_bool(o.has_trait(x.IsTerminator, value_if_unregistered=False)),
-            coq_bool(o.has_trait(x.SymbolOpInterface, value_if_unregistered=False)), e, coq_bool(rec)]) + ")")
+            coq_bool(term), coq_bool(o.has_trait(x.SymbolOpInterface, value_if_unregistered=False)), e,
+            coq_bool(rec)]) + ")")
 
     def d_region(rr):
         return coq_list("(RBlk " + " ".join([str(num.blk[id(b)]), zs(num.val[id(a)] for a in b.args),
@@ -400,8 +415,8 @@ def ref_observable(op, present):
 
 def ref_intrinsic(op, present):
     x = X()
-    return (op.has_trait(x.IsTerminator, value_if_unregistered=False)
-            or op.has_trait(x.SymbolOpInterface, value_if_unregistered=False) or ref_observable(op, present))
+    # an unregistered op may be a terminator or a symbol for all we know (and has unknown effects anyway)
+    return op.has_trait(x.IsTerminator) or op.has_trait(x.SymbolOpInterface) or ref_observable(op, present)
 
 
 def ref_reachable(region, present):
@@ -414,7 +429,7 @@ def ref_reachable(region, present):
     while todo:
         b = todo.pop()
         ops = [o for o in b.ops if present(o)]
-        if ops and ops[-1].has_trait(x.IsTerminator, value_if_unregistered=False):
+        if ops and ops[-1].has_trait(x.IsTerminator):      # unregistered last op: its successors count
             for s in ops[-1].successors:
                 if id(s) not in seen:
                     seen.add(id(s))
@@ -521,8 +536,8 @@ def analyse(case, res):
             continue
         if not anc_ok(o):
             continue      # went away with its block / an enclosing op
-        if o.has_trait(x.IsTerminator, value_if_unregistered=False):
-            bad.append(("only", f"removed op {i} ({o.name}) is a terminator", i))
+        if o.has_trait(x.IsTerminator):
+            bad.append(("only", f"removed op {i} ({o.name}) is (or, being unregistered, may be) a terminator", i))
         elif o.has_trait(x.SymbolOpInterface, value_if_unregistered=False):
             bad.append(("only", f"removed op {i} ({o.name}) is a symbol", i))
         elif ref_observable(o, sem_present):
@@ -547,7 +562,7 @@ def analyse(case, res):
             last = b.last_op
             if b is b.parent.first_block:
                 bad.append(("blocks", f"removed block {i} is the entry block of its region", None))
-            elif last is None or not last.has_trait(x.IsTerminator, value_if_unregistered=False):
+            elif last is None or not last.has_trait(x.IsTerminator):
                 wf_cfg = False   # invalid IR (a branch target without terminator): outside the statement
             else:
                 bad.append(("blocks", f"removed block {i} is reachable", None))
@@ -692,6 +707,7 @@ def semantic_check(case):
 class Gen:
     def __init__(self, rng, wild=False, allow_noterm=False):
         self.rng, self.wild, self.allow_noterm = rng, wild, allow_noterm
+        self.unreg_w = 14 if rng.random() < 0.35 else 2     # some programs branch mostly through unregistered ops
         self.nv = 0
         self.allvals = []
         self.kinds = {}
@@ -730,8 +746,10 @@ class Gen:
                 if bi == 0:
                     entry_vals += res
             if not (self.allow_noterm and rng.random() < 0.15):
-                k = rng.choices(TERM_KINDS, [8, 2, 1])[0]
+                k = rng.choices(TERM_KINDS, [8, 2, 1, self.unreg_w])[0]
                 ns = rng.choice([0, 1, 1, 2, 2, 3]) if nb > 1 else rng.choice([0, 0, 0, 1])
+                if k == "unregbr" and nb > 1:
+                    ns = max(1, ns)      # blocks reachable only through an unregistered branch-like op
                 succs = [rng.randrange(nb) if rng.random() < 0.35 else min(nb - 1, bi + rng.randint(1, 2))
                          for _ in range(ns)]
                 regs = []
